@@ -3276,7 +3276,10 @@ func (bc *Blockchain) GetTestHistoricVM(t trigger.Type, tx *transaction.Transact
 		if height, mtb := bc.BlockHeight(), bc.GetMaxTraceableBlocks(); height > mtb && b.Index < height-mtb {
 			return nil, fmt.Errorf("state for height %d is outdated and removed from the storage", b.Index)
 		}
-		mode |= mpt.ModeGCFlag
+		// Nodes are stored with reference counters, but old states are still
+		// there until GC removes them, so inactive nodes must not be filtered
+		// out (the same way stateroot.Module reads old states).
+		mode = mpt.ModeLatest
 	}
 	if b.Index < 1 || b.Index > bc.BlockHeight()+1 {
 		return nil, fmt.Errorf("unsupported historic chain's height: requested state for %d, chain height %d", b.Index, bc.blockHeight)
